@@ -82,11 +82,15 @@ theorem drop_ne_nil {α} {l : List α} {m : Nat} (h : ¬ l.length ≤ m) : l.dro
 
 theorem inv_step {s : State} (op : Op) (h : Inv s) : Inv (step s op).1 := by
   cases op with
-  | «open» k ns objs max =>
+  | «open» p k ns objs max =>
     simp only [step, stepOpen]
-    by_cases h1 : badMax max <;> simp only [h1, if_true, if_false] <;> try exact h
+    by_cases h1 : (badMax max || badTimeout p.timeout) <;> simp only [h1, if_true, if_false] <;> try exact h
     by_cases h2 : s.disabled <;> simp only [h2, if_true, if_false] <;> try exact h
     by_cases h3 : !(s.nss.contains ns) <;> simp only [h3, if_true, if_false] <;> try exact h
+    cases hp : paramErr p with
+    | some e => exact h
+    | none =>
+    simp only
     by_cases h4 : objs.length ≤ effMax max <;> simp only [h4, if_true, if_false] <;> try exact h
     refine ⟨?_, ?_, ?_⟩
     · apply uniqueIds_append_fresh h.uniq
@@ -163,20 +167,23 @@ def openedState (s : State) (k : Kind) (ns : Nat) (objs : List Obj) (max : Optio
   { s with ctxs := s.ctxs ++ [{ id := s.nextId, kind := k, ns := ns, data := objs.drop (effMax max) }],
            nextId := s.nextId + 1 }
 
-theorem stepOpen_cases (s : State) (k : Kind) (ns : Nat) (objs : List Obj) (max : Option Int) :
-    (∃ e, stepOpen s k ns objs max = (s, .err e)) ∨
-    (objs.length ≤ effMax max ∧ stepOpen s k ns objs max = (s, .batch objs true none)) ∨
-    (¬ objs.length ≤ effMax max ∧ stepOpen s k ns objs max =
+theorem stepOpen_cases (s : State) (p : OpenParams) (k : Kind) (ns : Nat) (objs : List Obj) (max : Option Int) :
+    (∃ e, stepOpen s p k ns objs max = (s, .err e)) ∨
+    (objs.length ≤ effMax max ∧ stepOpen s p k ns objs max = (s, .batch objs true none)) ∨
+    (¬ objs.length ≤ effMax max ∧ stepOpen s p k ns objs max =
       (openedState s k ns objs max, .batch (objs.take (effMax max)) false (some s.nextId))) := by
   unfold stepOpen openedState
-  by_cases h1 : badMax max = true
-  · left; exact ⟨.valueError, by simp [h1]⟩
+  by_cases h1 : (badMax max || badTimeout p.timeout) = true
+  · left; exact ⟨.valueError, by simp only [h1, if_true]⟩
   by_cases h2 : s.disabled = true
-  · left; exact ⟨.cimError CIM_ERR_NOT_SUPPORTED, by simp [h1, h2]⟩
+  · left; exact ⟨.cimError CIM_ERR_NOT_SUPPORTED, by simp only [h1, h2, if_true]; simp⟩
   by_cases h3 : ns ∈ s.nss
-  · by_cases h4 : objs.length ≤ effMax max
-    · right; left; exact ⟨h4, by simp [h1, h2, h3, h4]⟩
-    · right; right; exact ⟨h4, by simp [h1, h2, h3, h4]⟩
+  · cases hp : paramErr p with
+    | some e => left; exact ⟨e, by simp [h1, h2, h3]⟩
+    | none =>
+      by_cases h4 : objs.length ≤ effMax max
+      · right; left; exact ⟨h4, by simp [h1, h2, h3, h4]⟩
+      · right; right; exact ⟨h4, by simp [h1, h2, h3, h4]⟩
   · left; exact ⟨.cimError CIM_ERR_INVALID_NAMESPACE, by simp [h1, h2, h3]⟩
 
 /-- the guard under which a pull reaches the slicing code -/
@@ -244,7 +251,7 @@ theorem upd_other {α} (f : Nat → α) {i j : Nat} (v : α) (h : j ≠ i) : upd
 /-- history update from one observable (op, out) pair -/
 def histStep (h : Hist) (op : Op) (out : Out) : Hist :=
   match op, out with
-  | .open _ _ objs _, .batch b false (some i) => ⟨upd h.orig i objs, upd h.del i b, upd h.st i .opened⟩
+  | .open _ _ _ objs _, .batch b false (some i) => ⟨upd h.orig i objs, upd h.del i b, upd h.st i .opened⟩
   | .pull _ (some i) _, .batch b eos _ =>
       ⟨h.orig, upd h.del i (h.del i ++ b), upd h.st i (if eos then .eos else .opened)⟩
   | .close (some i), .done => ⟨h.orig, h.del, upd h.st i .closed⟩
@@ -415,9 +422,9 @@ theorem rel_close {s : State} {h : Hist} {i : Nat} {c : Ctx}
 theorem rel_step {s : State} {h : Hist} (op : Op) (hi : Inv s) (hr : Rel s h) :
     Rel (step s op).1 (histStep h op (step s op).2) := by
   cases op with
-  | «open» k ns objs max =>
+  | «open» p k ns objs max =>
     simp only [step]
-    rcases stepOpen_cases s k ns objs max with ⟨e, he⟩ | ⟨_, he⟩ | ⟨h4, he⟩
+    rcases stepOpen_cases s p k ns objs max with ⟨e, he⟩ | ⟨_, he⟩ | ⟨h4, he⟩
     · rw [he]; exact hr
     · rw [he]; exact hr
     · rw [he]; exact rel_open k ns objs max hi hr h4
